@@ -120,6 +120,13 @@ fn offered(font: &[u8], def: &SubsetDefinition, by_uri: &HashMap<String, i64>) -
     }
 }
 
+/// a well-formed format 1 font with a glyph map and a two-record feature map (two-byte entry indices)
+pub fn sample_font() -> Vec<u8> {
+    let c = json!({"first": 1, "gmap": [0, 1, 2, 1, 2], "maxG": 2, "maxE": 300, "applied": [1],
+        "frecs": [[0, 3, [[1, 1], [2, 2]]], [1, 5, [[1, 2]]]]});
+    build_font(build_format1(&c, 1, 0, true))
+}
+
 pub fn replay(path: &str, every: u64, ev: &mut Vec<Value>, rep: &mut Report) {
     let by_uri: HashMap<String, i64> = (0..=300).map(|e| (uri_string("A", e as u32), e)).collect();
     let mut k = 0u64;
